@@ -24,13 +24,40 @@ func vfUniString(name string, n int) string {
 	return s
 }
 
+func vfWideLines(name string, n int) string {
+	k := vfChoice(name+".n", n+1)
+	s := ""
+	for i := 0; i < k; i++ {
+		switch vfChoice(vfName(name+".a", i), 3) {
+		case 0:
+			s += "x"
+		case 1:
+			s += "世"
+		case 2:
+			s += "\n"
+		}
+	}
+	return s
+}
+
 // A cell whose item does not override its size: height == number of lines, width == widest line.
 func VerifC18_cell() {
 	n := 3
 	if vfTier() == 1 {
 		n = 5
 	}
-	s := vfUniString("s", n)
+	verifC18Cell(vfUniString("s", n))
+}
+
+func VerifC18_cellwidelines() {
+	n := 6
+	if vfTier() == 1 {
+		n = 8
+	}
+	verifC18Cell(vfWideLines("w", n))
+}
+
+func verifC18Cell(s string) {
 	c := NewCell(s)
 	lines := c.Lines()
 	vfAssert(c.String() == s, "text-is-string")
